@@ -128,15 +128,29 @@ def leaf_tok(bits, refs, cells):
     return f"{bits or '-'}/{'.'.join(cells[i].hash.hex() for i in refs) or '-'}"
 
 
-def tree_case(ctx, n, items, ybits, prune_p, base, tag, canonical=False, force=None):
+def tree_case(ctx, n, items, ybits, prune_p, base, tag, canonical=False, force=None, xref=False):
     """items: sorted [(key bits, (value bits, [ref idx]))]; builds a valid tree with random constructors and prunings and checks all parsers"""
     HashMap, parse_hashmap, parse_hashmap_aug, Builder, Cell = _lib()
     rng = ctx.rng
     t = M.patricia(items)
     room = max(len(v[0]) for _, v in items)
-    if not M.choose_kinds(rng, t, n, ybits, room, canonical):
+    # xref: extra:Y = uint(ybits) ++ Maybe ^Cell - the augmentation OWNS a reference (as CurrencyCollection's dictionary does),
+    # so the parser must hand Y a slice whose next reference is the one after left/right (fork) / before the value's (leaf)
+    xw = ybits + 1 if xref else ybits
+    if not M.choose_kinds(rng, t, n, xw, room, canonical):
         ctx.count('tree:does-not-fit')
         return
+    if xref is True:
+        def setx(t):
+            if t['extra'][-1] == '1':
+                if base and (('leaf' not in t) or len(t['leaf'][1]) < 4):
+                    t['xrefs'] = [rng.randrange(len(base))]
+                else:
+                    t['extra'] = t['extra'][:-1] + '0'
+            if 'leaf' not in t:
+                setx(t['l'])
+                setx(t['r'])
+        setx(t)
     if force:
         force(t)
     M.mark_pruned(rng, t, prune_p)
@@ -147,6 +161,11 @@ def tree_case(ctx, n, items, ybits, prune_p, base, tag, canonical=False, force=N
     cells = G.lib_build(db.nodes, 'ctor')
     npruned = sum(1 for x in toks if x == 'P')
     inp = {'kind': 'tree', 'n': n, 'ybits': ybits, 'tokens': toks, 'base': [list(b) for b in base], 'tag': tag}
+    if xref:
+        def pre(t):
+            return [list(t.get('xrefs', ()))] + ([] if 'leaf' in t else pre(t['l']) + pre(t['r']))
+        inp['xref'] = True
+        inp['xrefs'] = pre(t)            # pre-order, one entry per (non-'P') token
     ctx.case(('tree', n, ybits, tuple(toks)), nontrivial=bool(leaves), sample={'n': n, 'tokens': toks[:5], 'pruned': npruned})
     ctx.count(f'tree:pruned={min(npruned, 3)}')
     for x in toks:
@@ -165,8 +184,9 @@ def tree_case(ctx, n, items, ybits, prune_p, base, tag, canonical=False, force=N
             return
         rc = mp.refs[0]
     dag = G.dag_line(db.nodes)[8:]
-    ctx.expect_model(f"hmenc {G.dag_line(list(base))[8:] if base else '-'} {n} {','.join(toks)}",
-                     'ok ' + rc.hash.hex() + ' ' + (';'.join(f'{k}={leaf_tok(b, r, cells)}' for k, b, r in leaves) or '-'), tag)
+    if not xref:        # the spec encoder's extras are bit strings; ref-carrying extras are checked against the parsers only
+        ctx.expect_model(f"hmenc {G.dag_line(list(base))[8:] if base else '-'} {n} {','.join(toks)}",
+                         'ok ' + rc.hash.hex() + ' ' + (';'.join(f'{k}={leaf_tok(b, r, cells)}' for k, b, r in leaves) or '-'), tag)
     want_bits = ';'.join(f'{k}={leaf_tok(b, r, cells)}' for k, b, r in leaves) or '-'
     want_int = ';'.join(f'{int(k, 2)}={leaf_tok(b, r, cells)}' for k, b, r in leaves) or '-'
     root_pruned = bool(t.get('pruned'))
@@ -200,6 +220,14 @@ def tree_case(ctx, n, items, ybits, prune_p, base, tag, canonical=False, force=N
     else:
         y = lambda s: s.load_uint(ybits)
         x = lambda s: slice_tok(s)
+        am, aem = f'aug:{ybits}', f'auge:{ybits}'
+        if xref:
+            def y(s):
+                v = s.load_uint(ybits)
+                return f'{v}^{s.load_ref().hash.hex()}' if s.load_bit() else str(v)
+            extras = [(f'{int(e[:-1], 2)}^{cells[r[0]].hash.hex()}' if r else str(int(e[:-1], 2))) for e, r in db.xextras]
+            am, aem = f'augr:{ybits}', f'auger:{ybits}'
+            ctx.count('tree:xref-extras', sum(1 for _, r in db.xextras if r))
         want = 'none' if root_pruned else want_int + ' ' + ('.'.join(map(str, extras)) or '-')
 
         def render(res):
@@ -209,19 +237,19 @@ def tree_case(ctx, n, items, ybits, prune_p, base, tag, canonical=False, force=N
             return (';'.join(f'{k}={v}' for k, v in d.items()) or '-') + ' ' + ('.'.join(map(str, ex)) or '-')
         # HashmapAugE: ahme_root$1 root:^(HashmapAug n X Y) extra:Y  /  ahme_empty$0 extra:Y  (the top-level extra is read since f2933e1)
         te = (len(leaves) * 5 + 3 + n) % (1 << ybits)
-        tebits = format(te, f'0{ybits}b')
-        cont = Builder().store_bit(1).store_ref(rc).store_uint(te, ybits).end_cell()
+        tebits = format(te, f'0{ybits}b') + ('0' if xref else '')
+        cont = Builder().store_bit(1).store_ref(rc).store_bits(tebits).end_cell()
         dag2 = dag + f'|-1,1{tebits},{root}'
-        cont0 = Builder().store_bit(0).store_uint(te, ybits).end_cell()
+        cont0 = Builder().store_bit(0).store_bits(tebits).end_cell()
         dag0 = dag + f'|-1,0{tebits},-'
         contx = Builder().store_bit(1).store_ref(rc).end_cell()          # extra missing: not a HashmapAugE, must raise
-        ok = check('parse_hashmap_aug', lambda: parse_hashmap_aug(rc.begin_parse(), n, x, y), render, want, f'aug:{ybits}')
-        ok = ok and check('load_hashmap_aug', lambda: rc.begin_parse().load_hashmap_aug(n, x, y), render, want, f'aug:{ybits}')
-        ok = ok and check('load_hashmap_aug_e', lambda: cont.begin_parse().load_hashmap_aug_e(n, x, y), render, want, f'auge:{ybits}', cnode, dag2)
-        ok = ok and check('load_hashmap_aug_e', lambda: cont0.begin_parse().load_hashmap_aug_e(n, x, y), render, f'- {te}', f'auge:{ybits}', cnode, dag0)
+        ok = check('parse_hashmap_aug', lambda: parse_hashmap_aug(rc.begin_parse(), n, x, y), render, want, am)
+        ok = ok and check('load_hashmap_aug', lambda: rc.begin_parse().load_hashmap_aug(n, x, y), render, want, am)
+        ok = ok and check('load_hashmap_aug_e', lambda: cont.begin_parse().load_hashmap_aug_e(n, x, y), render, want, aem, cnode, dag2)
+        ok = ok and check('load_hashmap_aug_e', lambda: cont0.begin_parse().load_hashmap_aug_e(n, x, y), render, f'- {te}', aem, cnode, dag0)
         gotx = call(lambda: contx.begin_parse().load_hashmap_aug_e(n, x, y))
         ctx.count('parser:load_hashmap_aug_e:no-extra')
-        ctx.expect_model(f"hmparse {dag + f'|-1,1,{root}'} {cnode} {n} auge:{ybits}", 'err' if is_err(gotx) else 'ok ' + render(gotx), tag + ':auge-no-extra')
+        ctx.expect_model(f"hmparse {dag + f'|-1,1,{root}'} {cnode} {n} {aem}", 'err' if is_err(gotx) else 'ok ' + render(gotx), tag + ':auge-no-extra')
 
 
 def rand_items(rng, n, nbase):
@@ -275,6 +303,11 @@ def tree_cases(ctx):
         items = rand_items(rng, n, len(base))
         ybits = rng.choice([0, 0, 1, 5, 32])
         tree_case(ctx, n, items, ybits, rng.choice([0.0, 0.15, 0.4]), base, f'tree{t}', canonical=rng.random() < 0.1)
+    # augmentation values that own a reference (fork: refs = left, right, THEN extra's; leaf: extra's, then the value's)
+    for t in range(ctx.n(300, 3000)):
+        n = rng.choice([1, 2, 3, 4, 5, 8, 16, 32]) if rng.random() < 0.7 else M.rand_width(rng)
+        items = rand_items(rng, n, len(base))
+        tree_case(ctx, n, items, rng.choice([1, 4, 32]), rng.choice([0.0, 0.0, 0.15, 0.4]), base, f'xtree{t}', canonical=rng.random() < 0.1, xref=True)
 
 
 def run(ctx):
@@ -310,11 +343,20 @@ def replay_tree(ctx, inp):
         return {'label': p[1], 'kind': p[2], 'v': p[3], 'extra': p[4], 'l': l, 'r': r}, pos3
 
     tree, _ = parse(0)
+    if inp.get('xref'):
+        it = iter(inp['xrefs'])
+
+        def put(t):
+            t['xrefs'] = list(next(it))
+            if 'leaf' not in t:
+                put(t['l'])
+                put(t['r'])
+        put(tree)
     orig_patricia, orig_choose, orig_mark = M.patricia, M.choose_kinds, M.mark_pruned
     try:
         M.patricia = lambda items: tree
         M.choose_kinds = lambda *a, **k: True
         M.mark_pruned = lambda *a, **k: None
-        tree_case(ctx, n, [('', ('', []))], ybits, 0.0, base, inp.get('tag', 'replay'))
+        tree_case(ctx, n, [('', ('', []))], ybits, 0.0, base, inp.get('tag', 'replay'), xref='fixed' if inp.get('xref') else False)
     finally:
         M.patricia, M.choose_kinds, M.mark_pruned = orig_patricia, orig_choose, orig_mark
